@@ -254,3 +254,32 @@ def to_disk(f, d, h, name='src.nc', fmt='netcdf'):
     except Exception:
         return None
 
+
+
+def run_suite_monitored(timeout=1800):
+    """Runs the repository's own test suite (as found in $VERIF_REPO) with the
+    pncmon.suiteplugin monitors on.  -> dict (counts, violations,
+    monitor_errors, exitstatus) or None when the run produced nothing."""
+    import json
+    repo = os.environ.get('VERIF_REPO', '/repo')
+    out = os.path.join(tmproot(), 'suite-%d.json' % os.getpid())
+    env = dict(os.environ, VERIF_SUITE_OUT=out,
+               PYTHONPATH=os.pathsep.join(
+                   [os.path.join(repo, 'src'), VERIF,
+                    os.path.join(VERIF, '.deps')]))
+    try:
+        subprocess.run(
+            [sys.executable, '-m', 'pytest', '-q', '-p', 'no:cacheprovider',
+             '-p', 'pncmon.suiteplugin', '--timeout=900',
+             '--continue-on-collection-errors'],
+            cwd=repo, env=env, stdout=subprocess.DEVNULL,
+            stderr=subprocess.DEVNULL, timeout=timeout)
+        with open(out) as fh:
+            return json.load(fh)
+    except Exception:
+        return None
+    finally:
+        try:
+            os.remove(out)
+        except OSError:
+            pass
